@@ -2254,6 +2254,36 @@ void sslResetContext(ssl_t *ssl)
 }
 
 #ifdef USE_CERT_VALIDATE
+/* An IPv4 literal ("1.2.3.4") or an e-mail address is not a host name: such
+   an expected name is matched against the iPAddress / rfc822Name entries
+   (and, literally, the CN), never as a DNS name */
+static int isHostName(const char *s)
+{
+    int dots = 0, digits = 0;
+
+    if (Strchr(s, '@'))
+    {
+        return 0;
+    }
+    for (; *s != '\0'; s++)
+    {
+        if (*s >= '0' && *s <= '9' && digits < 3)
+        {
+            digits++;
+        }
+        else if (*s == '.' && digits > 0)
+        {
+            dots++;
+            digits = 0;
+        }
+        else
+        {
+            return 1;
+        }
+    }
+    return !(dots == 3 && digits > 0);
+}
+
 static int wildcardMatch(char *wild, char *s)
 {
     char *c, *e;
@@ -2274,8 +2304,9 @@ static int wildcardMatch(char *wild, char *s)
         {
             return -1;
         }
-        if (Strchr(s, '@'))
+        if (!isHostName(s))
         {
+            /* The wildcard stands for a DNS label only */
             return -1;
         }
         if ((e = Strchr(s, '.')) == NULL)
@@ -2613,9 +2644,10 @@ static int32 validateCertsExtInt(psPool_t *pool, psX509Cert_t *subjectCerts,
                 {
                 case GN_DNS:
                     foundSupportedSAN = 1;
-                    if (opts->nameType == NAME_TYPE_ANY ||
-                        opts->nameType == NAME_TYPE_HOSTNAME ||
-                        opts->nameType == NAME_TYPE_SAN_DNS)
+                    if ((opts->nameType == NAME_TYPE_ANY ||
+                         opts->nameType == NAME_TYPE_HOSTNAME ||
+                         opts->nameType == NAME_TYPE_SAN_DNS) &&
+                        isHostName(expectedName))
                     {
                         if (wildcardMatch((char *) n->data, expectedName) == 0)
                         {
